@@ -1,0 +1,19 @@
+//go:build verif
+
+package engine
+
+import (
+	"github.com/KevoDB/kevo/pkg/engine/interfaces"
+	"github.com/KevoDB/kevo/pkg/engine/storage"
+)
+
+// VerifStorage exposes the storage manager to the verification harness.
+func (e *EngineFacade) VerifStorage() *storage.Manager {
+	m, _ := e.storage.(*storage.Manager)
+	return m
+}
+
+// VerifCompaction exposes the compaction manager to the verification harness.
+func (e *EngineFacade) VerifCompaction() interfaces.CompactionManager {
+	return e.compaction
+}
